@@ -435,6 +435,10 @@ func (c *Compiler) compileAssignStatement(stmt *ast.AssignStatement) error {
 
 // compileReassignStatement compiles variable reassignment (without $ prefix)
 func (c *Compiler) compileReassignStatement(stmt *ast.ReassignStatement) error {
+	// `obj.field = v`: a field store in the interpreter, no bytecode for it (see compileAssignStatement)
+	if strings.Contains(stmt.Target, ".") {
+		return fmt.Errorf("assignment to field path '%s' is not supported by the compiler", stmt.Target)
+	}
 	// Check that the variable exists (must be previously declared)
 	if _, exists := c.symbolTable.Resolve(stmt.Target); !exists {
 		return &SemanticError{Message: fmt.Sprintf("cannot assign to undeclared variable '%s'", stmt.Target)}
